@@ -248,6 +248,13 @@ def r4(ctx):
                 se = m.get("Some")
                 ne_ = m.get("None") or els
                 good = fe_ne + te_eq
+                # the outcome of the comparison may be held in a flag (`let same = match peer { Inet(a) => .. == from, o => *o == from }; if !same`)
+                from engine.analysis.flow import _flag_switches, _flag_defs
+                EQ = re.compile(r"Addr as std::cmp::PartialEq>::eq$")
+                for fsbb, fte, ffe, fl in _flag_switches(u):
+                    defs = _flag_defs(u, fl)
+                    if defs and all(k == "false" or (k == "call" and EQ.search(pl_["f"])) for _, k, pl_ in defs):
+                        good = good + fte
                 # on the Some path the push must be behind the peer comparison's "equal" edge
                 r_some = u.reachable(se[1], removed_edges=good) if se else set()
                 okp = bool(se) and bool(good) and bb not in u.reachable(se[1], removed_edges=good)
@@ -333,7 +340,61 @@ def r6(ctx):
     ctx.floor(R, 5)
 
 
+def r7(ctx):
+    R = "C17-R7"
+    ctx.rule(R, "demultiplexing keys are what packets carry - address and port: an IPv6 SocketAddr also has a scope id and a flow label, which take "
+                "part in its equality but are never on the wire, so every remote address that goes into the connection index (insert_connection) or "
+                "is compared with a packet's source (the connected-UDP peer filter) must have been rebuilt from (ip, port) - SocketAddr::new - like the "
+                "keys the receive path looks up. A peer named `[fe80::1%2]:9000` otherwise never matches its own answers")
+    NEW = re.compile(r"^call:std::net::SocketAddr::new$")
+    n = 0
+    for b in sorted(ctx.w.bodies.values(), key=lambda b: b.id):
+        if b.crate != "turmoil_net":
+            continue
+        for bb, t in b.calls("turmoil_net::kernel::socket::SocketTable::insert_connection"):
+            n += 1
+            def wire_form(fb, op, depth=0):
+                """the operand was rebuilt by SocketAddr::new here, or it is a parameter that every caller passes in that form"""
+                at = Slicer(ctx.w, into_callees=1).atoms(fb, op)
+                if any(NEW.match(a) for a in at):
+                    return True
+                ks = sorted({int(a.split(":")[1]) for a in at if a.startswith("arg:") and a.endswith("@" + fb.id)})
+                if not ks or depth > 2:
+                    return False
+                callers = who_calls(ctx.w, fb.id)
+                return bool(callers) and all(any(wire_form(cb, ct["args"][k - 1], depth + 1) for k in ks if k - 1 < len(ct["args"])) for cb, cbb, ct in callers)
+            ok = wire_form(b, t["args"][2])
+            ctx.inst(R, f"index-key:{b.id}#{n}", ok, t["s"], "the remote half of the key is rebuilt from (ip, port)" if ok else
+                     f"`{b.id}` files a connection under the remote address exactly as the caller wrote it: with an IPv6 scope id or flow label the key never equals "
+                     "the (source ip, source port) the receive path looks up - the SYN-ACK finds no connection, is answered with a RST, and the connect times out")
+    dl = ctx.w.bodies.get("turmoil_net::kernel::udp::deliver")
+    if dl:
+        PEER = "field:turmoil_net::kernel::socket::Socket::peer"
+        for bb, t in dl.calls(re.compile(r"PartialEq.*::(ne|eq)$")):
+            a0, a1 = Slicer(ctx.w, into_callees=1).atoms(dl, t["args"][0]), Slicer(ctx.w, into_callees=1).atoms(dl, t["args"][1])
+            if PEER not in a0 | a1:
+                continue
+            # only an Inet address has a scope id / flow label: a comparison on another arm of a match on the Addr is exempt
+            other_arm = False
+            for sbb, m, els, adt, pl in variant_edges(dl, lambda p: True):
+                if adt == "turmoil_net::kernel::socket::Addr" and "Inet" in m:
+                    for v, e in list(m.items()) + [("else", els)]:
+                        if v != "Inet" and e[1] != m["Inet"][1] and dl.dominated_by_edge(bb, e):
+                            other_arm = True
+            if other_arm:
+                continue
+            n += 1
+            side = a0 if PEER in a0 else a1
+            ok = any(NEW.match(a) for a in side)
+            ctx.inst(R, "udp-peer-filter:wire-form", ok, t["s"], "the stored peer is compared in its (ip, port) form" if ok else
+                     "a connected UDP socket compares the peer address as the caller wrote it with the packet's (source ip, source port): with an IPv6 scope id or "
+                     "flow label the peer's own datagrams are filtered out as `not from the peer`")
+    ctx.inst(R, "index-key:found", n >= 3, "", f"{n} key sites analysed" if n >= 3 else f"only {n} demultiplexing key sites found (2 insert_connection + the UDP peer filter expected): re-derive")
+    ctx.floor(R, 4)
+
+
 def run(ctx):
+    r7(ctx)
     r6(ctx)
     r1(ctx)
     r2(ctx)
